@@ -374,7 +374,31 @@ func (c *Ctx) RunInst(tier string) {
 			sb.WriteString("i for 1000\ndat i\nrof\n")
 		}
 		fam(sb.String(), 12000*12, "12 sequential FORs of 1000")
-		rep.Bound += "; scaling family (1k..16k lines, FOR 10000, FOR 100x100, 12 FORs of 1000) under a budget of 20000 ticks per byte-or-expanded-line"
+		// other shapes: many labels on one line, a long EQU chain, deep parentheses, a very long comment,
+		// many undefined symbols, a long run of signs
+		{
+			var sb strings.Builder
+			for i := 0; i < 2000; i++ {
+				fmt.Fprintf(&sb, "l%d ", i)
+			}
+			sb.WriteString("dat 0\n")
+			fam(sb.String(), 2000, "2000 labels on one instruction")
+			sb.Reset()
+			for i := 0; i < 150; i++ {
+				fmt.Fprintf(&sb, "e%d equ e%d+1\n", i, i+1)
+			}
+			sb.WriteString("e150 equ 1\ndat e0\n")
+			fam(sb.String(), 150*150, "chain of 150 EQUs")
+			fam("dat "+strings.Repeat("(", 400)+"1"+strings.Repeat(")", 400)+"\n", 800, "400 nested parentheses")
+			fam("dat 0 ;"+strings.Repeat("c", 1<<20)+"\n", 0, "a comment of 1 MiB")
+			fam("dat "+strings.Repeat("-", 3000)+"1\n", 3000, "a run of 3000 signs")
+			sb.Reset()
+			for i := 0; i < 1500; i++ {
+				fmt.Fprintf(&sb, "dat u%d\n", i)
+			}
+			fam(sb.String(), 1500, "1500 undefined symbols")
+		}
+		rep.Bound += "; further shapes (2000 labels on one line, a chain of 150 EQUs, 400 nested parentheses, a 1 MiB comment, a run of 3000 signs, 1500 undefined symbols); scaling family (1k..16k lines, FOR 10000, FOR 100x100, 12 FORs of 1000) under a budget of 20000 ticks per byte-or-expanded-line"
 	}
 	rep.Sample(Join([]string{"x", "equ", "x", "+", "1", "\n", ";assert", "x"}))
 	rep.Sample("i for 1/0\ndat i\nrof\n")
